@@ -2,9 +2,15 @@
 package main
 
 import (
+	"context"
 	"encoding/json"
 	"math/big"
+	"time"
 
+	node "buf.build/gen/go/agglayer/agglayer/grpc/go/agglayer/node/v1/nodev1grpc"
+	v1nodetypes "buf.build/gen/go/agglayer/agglayer/protocolbuffers/go/agglayer/node/types/v1"
+	v1 "buf.build/gen/go/agglayer/agglayer/protocolbuffers/go/agglayer/node/v1"
+	v1types "buf.build/gen/go/agglayer/interop/protocolbuffers/go/agglayer/interop/types/v1"
 	agglayergrpc "github.com/agglayer/aggkit/agglayer/grpc"
 	agglayertypes "github.com/agglayer/aggkit/agglayer/types"
 	"github.com/agglayer/aggkit/aggsender/aggchainproofclient"
@@ -12,17 +18,21 @@ import (
 	aggsendertypes "github.com/agglayer/aggkit/aggsender/types"
 	"github.com/agglayer/aggkit/bridgesync"
 	aggkitcommon "github.com/agglayer/aggkit/common"
+	cfgtypes "github.com/agglayer/aggkit/config/types"
+	aggkitgrpc "github.com/agglayer/aggkit/grpc"
 	"github.com/ethereum/go-ethereum/common"
+	"google.golang.org/grpc"
 
 	"verifharness/hlib"
 )
 
 type In struct {
-	Kind string `json:"kind"` // "triple" | "value"
+	Kind string `json:"kind"` // "triple" | "value" | "batch"
 	M    bool   `json:"m"`
 	R    uint32 `json:"r"`
 	L    uint32 `json:"l"`
-	V    string `json:"v"` // decimal, for kind=value
+	V    string `json:"v"`            // decimal, for kind=value
+	Ts   []Dec3 `json:"ts,omitempty"` // kind=batch: the claims of ONE certificate / prover request, in order
 }
 
 type Dec3 struct {
@@ -44,6 +54,79 @@ type Out struct {
 	ExitHash string `json:"exit_hash,omitempty"`
 	OptHash  string `json:"opt_hash,omitempty"`
 	Err      string `json:"err,omitempty"`
+	// kind=batch: one certificate carrying all claims of In.Ts (claim i has amount 1000+i)
+	BWire     []string `json:"b_wire,omitempty"`      // SubmitCertificateRequest built by the real SendCertificate: imported_bridge_exits[i].global_index
+	BProver   []string `json:"b_prover,omitempty"`    // GenerateAggchainProofRequest: imported_bridge_exits[i].global_index
+	BExitHash []string `json:"b_exit_hash,omitempty"` // BridgeExit.Hash() of claim i
+	BLER      string   `json:"b_ler,omitempty"`
+	BPPHash   string   `json:"b_pp_hash,omitempty"`  // Certificate.PPHashToSign()
+	BOptHash  string   `json:"b_opt_hash,omitempty"` // CalculateCommitImportedBrdigeExitsHashFromClaims(claims with GlobalIndex = GenerateGlobalIndex(triple))
+}
+
+// fakeSubmission captures the request the real client builds.
+type fakeSubmission struct{ last *v1.SubmitCertificateRequest }
+
+func (f *fakeSubmission) SubmitCertificate(_ context.Context, in *v1.SubmitCertificateRequest, _ ...grpc.CallOption) (*v1.SubmitCertificateResponse, error) {
+	f.last = in
+	return &v1.SubmitCertificateResponse{CertificateId: &v1nodetypes.CertificateId{Value: &v1types.FixedBytes32{Value: make([]byte, 32)}}}, nil
+}
+
+var _ node.CertificateSubmissionServiceClient = (*fakeSubmission)(nil)
+
+func exitN(i int) *agglayertypes.BridgeExit {
+	e := fixedExit()
+	e.Amount = big.NewInt(int64(1000 + i))
+	return e
+}
+
+func runBatch(in In, o *Out) {
+	ler := common.HexToHash("0xc19c19c19c19c19c19c19c19c19c19c19c19c19c19c19c19c19c19c19c19c19c1")
+	cert := &agglayertypes.Certificate{NetworkID: 1, Height: 5, NewLocalExitRoot: ler,
+		AggchainData: &agglayertypes.AggchainDataSignature{Signature: make([]byte, 65)}}
+	req := &aggsendertypes.AggchainProofRequest{}
+	var claims []bridgesync.Claim
+	for i, t := range in.Ts {
+		ibe := &agglayertypes.ImportedBridgeExit{
+			BridgeExit:  exitN(i),
+			GlobalIndex: &agglayertypes.GlobalIndex{MainnetFlag: t.M, RollupIndex: t.R, LeafIndex: t.L},
+			ClaimData: &agglayertypes.ClaimFromMainnnet{
+				ProofLeafMER:     &agglayertypes.MerkleProof{},
+				ProofGERToL1Root: &agglayertypes.MerkleProof{},
+				L1Leaf:           &agglayertypes.L1InfoTreeLeaf{Inner: &agglayertypes.L1InfoTreeLeafInner{}},
+			},
+		}
+		cert.ImportedBridgeExits = append(cert.ImportedBridgeExits, ibe)
+		req.ImportedBridgeExitsWithBlockNumber = append(req.ImportedBridgeExitsWithBlockNumber,
+			&agglayertypes.ImportedBridgeExitWithBlockNumber{BlockNumber: uint64(i + 1), ImportedBridgeExit: ibe})
+		ex := exitN(i)
+		o.BExitHash = append(o.BExitHash, hlib.Hex(ex.Hash().Bytes()))
+		claims = append(claims, bridgesync.Claim{
+			GlobalIndex:        bridgesync.GenerateGlobalIndex(t.M, t.R, t.L),
+			OriginNetwork:      ex.TokenInfo.OriginNetwork,
+			OriginAddress:      ex.TokenInfo.OriginTokenAddress,
+			DestinationNetwork: ex.DestinationNetwork,
+			DestinationAddress: ex.DestinationAddress,
+			Amount:             ex.Amount,
+		})
+	}
+	sub := &fakeSubmission{}
+	cfg := aggkitgrpc.DefaultConfig()
+	cfg.RequestTimeout = cfgtypes.NewDuration(5 * time.Second)
+	cl := agglayergrpc.NewVerifClient(cfg, nil, nil, sub)
+	if _, err := cl.SendCertificate(context.Background(), cert); err != nil {
+		o.Err = err.Error()
+		return
+	}
+	for _, p := range sub.last.Certificate.ImportedBridgeExits {
+		o.BWire = append(o.BWire, hlib.Hex(p.GlobalIndex.Value))
+	}
+	preq := aggchainproofclient.VerifConvertAggchainProofRequest(req)
+	for _, p := range preq.ImportedBridgeExits {
+		o.BProver = append(o.BProver, hlib.Hex(p.GlobalIndex.Value))
+	}
+	o.BLER = hlib.Hex(ler.Bytes())
+	o.BPPHash = hlib.Hex(cert.PPHashToSign().Bytes())
+	o.BOptHash = hlib.Hex(optimistichash.CalculateCommitImportedBrdigeExitsHashFromClaims(claims).Bytes())
 }
 
 func fixedExit() *agglayertypes.BridgeExit {
@@ -86,6 +169,8 @@ func consumers(m bool, r, l uint32) (wire, commit, gihash, prover []byte, err er
 func run(in In) Out {
 	o := Out{In: in}
 	switch in.Kind {
+	case "batch":
+		runBatch(in, &o)
 	case "triple":
 		enc := bridgesync.GenerateGlobalIndex(in.M, in.R, in.L)
 		o.Enc = enc.String()
@@ -152,6 +237,24 @@ func gen(f *hlib.Flags) []In {
 			l >>= uint(rng.Intn(32))
 		}
 		ins = append(ins, In{Kind: "triple", M: rng.Bool(), R: r, L: l})
+	}
+	// batches: 2..6 claims with different global indexes in one certificate / prover request (per-claim buffers must not be shared)
+	bs := boundaryU32()
+	ins = append(ins, In{Kind: "batch", Ts: []Dec3{{true, 0, 7}, {false, 3, 9}, {false, 0, 0xffffffff}}})
+	for i := 0; i < 20+f.N/100; i++ {
+		n := 2 + rng.Intn(5)
+		var ts []Dec3
+		for j := 0; j < n; j++ {
+			t := Dec3{M: rng.Bool(), R: rng.U32(), L: rng.U32()}
+			if rng.Intn(3) == 0 {
+				t.R = bs[rng.Intn(len(bs))]
+			}
+			if rng.Intn(3) == 0 {
+				t.L = bs[rng.Intn(len(bs))]
+			}
+			ts = append(ts, t)
+		}
+		ins = append(ins, In{Kind: "batch", Ts: ts})
 	}
 	// on-chain values: canonical rollup (< 2^64), canonical mainnet (2^64 + l), and a separate non-canonical stream
 	one := big.NewInt(1)
